@@ -21,6 +21,7 @@ Decided clauses (DESIGN §4 C02):
        authenticates it, so a derivation that skips the ephemeral key makes an altered sealed box open.
   R2.10 secretstream header: after init_pull / init_push the state's key is HChaCha20 over header[0..16) and its inonce is a verbatim
        copy of header[16..24) (byte provenance, C09 R9.6), so no header byte is outside what authenticates the chunks.
+  R2.11 (E11) the length block of the portable AEGIS backends carries every bit of mlen and adlen (softaes_block_load64x2 drops none).
 NOT decided: that a changed bit changes the recomputed tag (MAC arithmetic).
 """
 import re
@@ -244,6 +245,19 @@ def run(ctx, chk):
         def __getattr__(self, n):
             return getattr(self._c, n)
     c09.layout_rule(ctx, prog, _Renamed(chk), inline.inlined(prog, prog.need("crypto_secretstream_xchacha20poly1305_push", rule="R2.10")))
+    # R2.11: the AEGIS tag covers both lengths: the software stand-in of _mm_set_epi64x(mlen << 3, adlen << 3) uses every bit of both
+    # operands (C10's R10.6 engine) - with the AD length dropped, X and X || 00 authenticate alike on the portable backend
+    from . import c10
+
+    class _Renamed11(_Renamed):
+        def ob(self, rule, *a, **kw):
+            if "key" in kw and kw["key"]:
+                kw["key"] = "R2.11/" + kw["key"]
+            return self._c.ob("R2.11/" + rule, *a, **kw)
+
+        def floor(self, rule, *a, **kw):
+            return self._c.floor("R2.11/" + rule, *a, **kw)
+    c10.softaes_rule(ctx, prog, _Renamed11(chk))
     from .. import loopinv
     loopinv.stuck_read_rule(prog, chk, "R2.8", ("crypto_aead/", "crypto_onetimeauth/", "crypto_auth/", "crypto_secretbox/",
                                                 "crypto_box/", "crypto_secretstream/"), floor=20 if prog.config == "native" else 5)
